@@ -137,6 +137,23 @@ fn one_case(t: i32, i: usize, ctx: &Ctx, rep: &mut Report, dir: &str) {
     if large.is_some() {
         rep.count("large_cases(amounts straddling powers of two)", 1);
     }
+    // one record well beyond 16 MiB (the format allows records of up to 2^31 words): a
+    // multipoint of 1.1 million points; thorough adds a 2.2 million point one and a big PolylineZ
+    let huge: Option<usize> = if cfg!(miri) {
+        None
+    } else if t == 8 && i == 9 {
+        Some(1_100_000)
+    } else if ctx.thorough && t == 8 && i == 13 {
+        Some(2_200_000)
+    } else if ctx.thorough && t == 13 && i == 9 {
+        Some(700_000)
+    } else {
+        None
+    };
+    if let Some(sz) = huge {
+        shapes = vec![gen::shape(t, &mut r, &Cfg::plain(1, 2)), gen::shape_exact(t, &mut r, &Cfg::plain(1, 2), 1, sz), gen::shape(t, &mut r, &Cfg::plain(1, 2))];
+        rep.count("huge_record_cases(> 16 MiB)", 1);
+    }
     if i == 0 && gen::is_polygon(t) {
         shapes.insert(r.usize_in(0, shapes.len()), sign_lost_polygon(t));
     }
@@ -239,6 +256,53 @@ fn one_case(t: i32, i: usize, ctx: &Ctx, rep: &mut Report, dir: &str) {
             if let Some(which) = panicmon::catch(|| crate::dump::accessor_disagreement(s)).unwrap_or(Some("panic".into())) {
                 rep.violation(&format!("accessors/{}/{}", type_name(t), which), &case, J::obj(vec![("shape_index", J::UInt((k % n.max(1)) as u64)), ("side", J::s(if k < read_back.len() { "read back" } else { "as constructed" })), ("shape", s.d().to_json())]));
                 break;
+            }
+        }
+    }
+
+    // ---- iterator adaptors: whatever the iterator overrides (nth, size_hint, fold, ...) must
+    //      agree with plain next(): skip, step_by, nth, last, count
+    {
+        let adaptors = panicmon::catch(|| -> Result<Vec<(&'static str, Vec<D>, Vec<usize>)>, Error> {
+            let mut out = vec![];
+            for with_idx in [false, true] {
+                let mk = || -> Result<ShapeReader<Cursor<Vec<u8>>>, Error> {
+                    if with_idx { ShapeReader::with_shx(Cursor::new(shp.clone()), Cursor::new(shx.clone())) } else { ShapeReader::new(Cursor::new(shp.clone())) }
+                };
+                let all: Vec<usize> = (0..n).collect();
+                let mut rd = mk()?;
+                out.push(("skip(1)", rd.iter_shapes().skip(1).collect::<Result<Vec<_>, _>>()?.iter().map(|s| s.d()).collect(), all[1.min(n)..].to_vec()));
+                let mut rd = mk()?;
+                out.push(("step_by(2)", rd.iter_shapes().step_by(2).collect::<Result<Vec<_>, _>>()?.iter().map(|s| s.d()).collect(), all.iter().cloned().step_by(2).collect()));
+                let mut rd = mk()?;
+                let k = n / 2;
+                out.push(("nth(n/2)", rd.iter_shapes().nth(k).into_iter().collect::<Result<Vec<_>, _>>()?.iter().map(|s| s.d()).collect(), vec![k]));
+                let mut rd = mk()?;
+                out.push(("last()", rd.iter_shapes().last().into_iter().collect::<Result<Vec<_>, _>>()?.iter().map(|s| s.d()).collect(), vec![n - 1]));
+                let mut rd = mk()?;
+                let cnt = rd.iter_shapes().count();
+                out.push(("count()", vec![], if cnt == n { vec![] } else { vec![usize::MAX] }));
+                let mut rd = mk()?;
+                let mut it = rd.iter_shapes();
+                let first = it.next();
+                let rest: Vec<D> = it.skip(1).collect::<Result<Vec<_>, _>>()?.iter().map(|s| s.d()).collect();
+                let _ = first;
+                out.push(("next();skip(1)", rest, all[2.min(n)..].to_vec()));
+            }
+            Ok(out)
+        });
+        match adaptors {
+            Err(p) => rep.violation(&format!("adaptors/{}/panic", type_name(t)), &case, J::s(p.class())),
+            Ok(Err(e)) => rep.violation(&format!("adaptors/{}/error", type_name(t)), &case, J::s(err_class(&e))),
+            Ok(Ok(list)) => {
+                for (name, got, idx) in list {
+                    rep.count("iterator_adaptor_runs", 1);
+                    let ok = got.len() == idx.len() && idx.iter().all(|i| *i != usize::MAX) && got.iter().zip(&idx).all(|(g, i)| first_diff(g, &want[*i]).is_none());
+                    if !ok {
+                        rep.violation(&format!("adaptors/{}/{}", type_name(t), name), &case, J::obj(vec![("adaptor", J::s(name)), ("items", J::UInt(got.len() as u64)), ("expected_items", J::UInt(idx.len() as u64)), ("n", J::UInt(n as u64))]));
+                        break;
+                    }
+                }
             }
         }
     }
